@@ -45,6 +45,22 @@ Proof. exact rle_len_correct. Qed.
 Theorem C20_sparse_roundtrip : forall d, to_dense (from_dense d) = map norm_zero d.
 Proof. exact sparse_roundtrip. Qed.
 
+(* the same vector assembled from its (position, value) parts -- the path snapshots and received messages
+   take (SparseVector::from_parts) -- is the vector from_dense builds, and reads back bit-identically *)
+Theorem C20_sparse_from_parts : forall d,
+  from_parts (N.of_nat (length d)) (N_seq_from 0 (length d)) d = Some (from_dense d) /\
+  option_map to_dense (from_parts (N.of_nat (length d)) (N_seq_from 0 (length d)) d) = Some (map norm_zero d).
+Proof. exact (fun d => conj (from_parts_dense d) (from_parts_roundtrip d)). Qed.
+
+(* tensor_compress::format's sparse decoder on arbitrary (forged, unsorted, out-of-range) positions never
+   writes outside the vector -- the result always has `dimension` entries -- and on well-formed input it is
+   the lossless read-back *)
+Theorem C20_format_sparse_decoder_total : forall dim ps vs, length (fsparse_decode dim ps vs) = N.to_nat dim.
+Proof. exact fsparse_decode_length. Qed.
+Theorem C20_format_sparse_decoder_wellformed : forall d,
+  fsparse_decode (N.of_nat (length d)) (map fst (from_dense_at 0 d)) (map snd (from_dense_at 0 d)) = map norm_zero d.
+Proof. exact fsparse_decode_wellformed. Qed.
+
 (* network frames, for any serialiser / compressor that are themselves inverse pairs *)
 Theorem C20_frame_v1_roundtrip : forall (msg : Type) ser deser,
   (forall m : msg, deser (ser m) = Some m) ->
@@ -150,3 +166,6 @@ Print Assumptions C20_frame_v1_roundtrip.
 Print Assumptions C20_frame_v2_roundtrip.
 Print Assumptions C20_frame_v2_unchecked_refuted.
 Print Assumptions C20_split_frame_bounded.
+Print Assumptions C20_sparse_from_parts.
+Print Assumptions C20_format_sparse_decoder_total.
+Print Assumptions C20_format_sparse_decoder_wellformed.
